@@ -418,7 +418,13 @@ func (srv *server) registerClient(connect *packets.Connect, client *client) (ses
 	srv.statsManager.clientConnected(client.opts.ClientID)
 
 	if oldSession != nil {
-		if !oldSession.IsExpired(now) && !connect.CleanStart {
+		// The session expiry interval runs from the end of the last network connection: the deadline is
+		// recorded in offlineClients when the connection ends. A client id that is not in there is online.
+		expired := false
+		if deadline, ok := srv.offlineClients[client.opts.ClientID]; ok {
+			expired = deadline.Before(now)
+		}
+		if !expired && !connect.CleanStart {
 			sessionResume = true
 		}
 		// clean old session
